@@ -365,6 +365,20 @@ pub fn run_c16(run: &mut Run, replay: Option<&std::path::Path>) -> anyhow::Resul
                     run.oracle_fail(json!({"kind": "router: a request for a registered path was not answered by the service registered for that path", "ops": o, "impl": out.clone(), "expected_service": svc}));
                 }
             }
+            // property oracle without the model: a route that is served matches one of the patterns somebody
+            // tried to register (a superset of the registered ones): it IS a capture-free pattern, or it lies
+            // under the fixed part of a wildcard pattern - nothing is served by a "near" pattern
+            if out.starts_with("svc=") {
+                let explained = patterns.iter().any(|p| match p.split_once('*') {
+                    Some((base, _)) => path.starts_with(base),
+                    None => *p == path,
+                });
+                if !explained {
+                    let mut o = ops.clone();
+                    o.push(op.clone());
+                    run.oracle_fail(json!({"kind": "router: a route that matches no registered pattern was served instead of NotFound", "ops": o, "impl": out.clone(), "path": path.chars().take(80).collect::<String>()}));
+                }
+            }
             // property oracle without the model: empty / slash-less routes are never served
             if (path.is_empty() || !path.starts_with('/')) && out != "404" {
                 let mut o = ops.clone();
